@@ -230,5 +230,19 @@ pub fn diagram_step(st: St, w: &[u8]) -> Step {
     }
 }
 
+/// Successor after a word whose ID is not legal in `st`, where the diagram prescribes one: the single-successor
+/// states have an unguarded outgoing edge (IHW --> TDH, TDH --> after_TDH, and their continuation twins), so
+/// whatever word sits in that position is taken as the expected word (and reported); `after_TDH` then
+/// branches on the no_data bit of that word. In the choice states the diagram has no edge for such a word.
+pub fn diagram_successor_after_illegal(st: St, w: &[u8]) -> Option<St> {
+    match st {
+        St::Ihw => Some(St::Tdh),
+        St::CIhw => Some(St::CTdh),
+        St::Tdh => Some(if tdh_no_data(w) { St::AfterNoData } else { St::Data }),
+        St::CTdh => Some(St::CData),
+        _ => None,
+    }
+}
+
 /// Number of (state, word-kind) pairs of the diagram: 8 states x 7 kinds.
 pub const DIAGRAM_PAIRS: usize = 8 * 7;
